@@ -614,7 +614,12 @@ def onObs (t : T) (x : Obs) : T :=
         | none => t
       | none => t
     match extra.head? with
-    | some (tk, _, _, _) => t.flag .C16 s!"{tag}the poller holds a stale or unexpected registration {tk.id}.{tk.ver}.{tk.sub}"
+    | some (tk, _, _, _) =>
+      let t := t.flag .C16 s!"{tag}the poller holds a stale or unexpected registration {tk.id}.{tk.ver}.{tk.sub}"
+      -- C06: a registration whose token no inserted source holds belongs to a source that has been removed
+      let ownerAlive := t.srcs.any fun (p : Nat × ASrc) => match p.2.tok with | some o => o.id == tk.id && o.ver == tk.ver | none => false
+      t.flagIf (!ownerAlive && !t.f15) .C06
+        s!"the poller still holds the registration {tk.id}.{tk.ver}.{tk.sub} of a source that has been removed: the removal did not release everything"
     | none => t
   | .panic p =>
     let t := t.flag .C08 s!"panic {repr p}"
